@@ -556,7 +556,8 @@ pub mod inner {
         /// The length of each slice equals [`self.width()`](Self::width).
         pub fn rows_mut(&mut self) -> impl Iterator<Item = &mut [T]> {
             self.data
-                .chunks_mut(self.stride as usize)
+                .chunks_mut(self.stride.max(1) as usize)
+                .take(self.dims.1 as usize)
                 .map(|row| &mut row[..self.dims.0 as usize])
         }
 
